@@ -335,6 +335,14 @@ pub fn populate(run: &mut Runner, r: &mut R, t: &mut Tab, n: usize) {
     }
 }
 
+/// the INSERT statements of a small population (executed by the caller)
+pub fn populate_direct(r: &mut R, t: &mut Tab, n: usize) -> Vec<Stmt> {
+    let mut out = vec![];
+    let mut left = n;
+    while left > 0 { out.push(rand_insert(r, t, 0, 1, false)); left = left.saturating_sub(3); }
+    out
+}
+
 /// C05: populations + query grammar, all autocommit
 fn seg_sql(run: &mut Runner, r: &mut R) {
     let cfg = if r.random_range(0..3) == 0 { rand_cfg(r, true) } else { default_cfg() };
